@@ -1,5 +1,7 @@
 package main
 
+import "fmt"
+
 // C16 — device grant: tokens only after user approval and only to the initiating client (DESIGN §5 C16).
 
 var deviceAuthBinding = []string{
@@ -9,6 +11,35 @@ var deviceAuthBinding = []string{
 }
 
 func init() {
+	// positive(t): t is a constant > 0, a product / sum of positive terms, defined as such, or known to exceed 0 on this path
+	var positive func(st *fstate, t *Term, depth int) bool
+	positive = func(st *fstate, t *Term, depth int) bool {
+		t = stripConv(t)
+		if v, ok := constValueOf(t); ok {
+			var n float64
+			if _, err := fmt.Sscan(v, &n); err == nil {
+				return n > 0
+			}
+			return false
+		}
+		zero := mk("const", "0")
+		if st.has(fact("lt", zero, t)) {
+			return true
+		}
+		if t.K == "op" && len(t.A) == 2 && (t.S == "*" || t.S == "+") {
+			return positive(st, t.A[0], depth+1) && positive(st, t.A[1], depth+1)
+		}
+		if depth > 4 {
+			return false
+		}
+		for _, fc := range st.facts {
+			if fc.S == "def" && len(fc.A) == 2 && fc.A[0].Key() == t.Key() && positive(st, fc.A[1], depth+1) {
+				return true
+			}
+		}
+		return false
+	}
+	customPreds["positive"] = func(st *fstate, a []*Term) bool { return len(a) == 1 && positive(st, a[0], 0) }
 	const get = "$st.GetDeviceAuthorizatonState(_, $clientID, $deviceCode)"
 	P := []string{"ctx", "clientID", "deviceCode", "exchanger"}
 	obs := []Ob{
@@ -29,6 +60,14 @@ func init() {
 			Why: "no other error leaves the state predicate",
 			Req: []string{"errOrig($r1, oidc.ErrSlowDown) || errOrig($r1, oidc.ErrAccessDenied) || errOrig($r1, oidc.ErrExpiredDeviceCode) || errOrig($r1, oidc.ErrAuthorizationPending) || fail(op.assertDeviceStorage(__))"}},
 		// token sinks, both routers
+		// the poll deadline: a non-positive timeout expires the context before the storage is asked, so every poll
+		// (pending, approved, denied, unknown code) would be answered with slow_down
+		{ID: "E1.device.poll-timeout-positive.provider", Fn: "op.deviceAccessToken", Kind: "call", Pat: "context.WithTimeout(_, $d)", Min: 1, Max: 1,
+			Why: "the state predicate must get a live context: the timeout is a positive constant or provably > 0",
+			Req: []string{"positive($d)"}},
+		{ID: "E1.device.poll-timeout-positive.legacy-server", Fn: "op.(*LegacyServer).DeviceToken", Kind: "call", Pat: "context.WithTimeout(_, $d)", Min: 1, Max: 1,
+			Why: "sibling of deviceAccessToken",
+			Req: []string{"positive($d)"}},
 		{ID: "E1.device.token.provider", Fn: "op.deviceAccessToken", Kind: "call", Pat: "op.CreateDeviceTokenResponse(_, $tr, _, $client)", Max: 1,
 			Why: "tokens go to the client that polls with its own id; confidential clients must have authenticated",
 			Req: []string{
